@@ -4,7 +4,7 @@ import lib, e2, gen_selectors, respell, campaign
 from lib import Check
 
 PID = 'C09'
-CONE = ['Regex.v', 'IR.v', 'AttrPat.v', 'Parser.v', 'RespellCorpus.v', 'RespellFacts.v', 'UnescFacts.v', 'StrContFacts.v', 'RunFacts.v', 'AttrFacts.v', 'gen/RegexGen.v', 'gen/ConstGen.v']
+CONE = ['Regex.v', 'IR.v', 'AttrPat.v', 'Parser.v', 'RespellCorpus.v', 'RespellFacts.v', 'UnescFacts.v', 'StrContFacts.v', 'StrUnescFacts.v', 'RunFacts.v', 'AttrFacts.v', 'gen/RegexGen.v', 'gen/ConstGen.v']
 
 
 def run(tier, seed):
